@@ -140,6 +140,7 @@ func (fr *Frame) execCall(v ssa.Value, cc *ssa.CallCommon, ins ssa.Instruction) 
 		args := append([]Term{recv}, fr.callArgs(cc)...)
 		it := cc.Value.Type()
 		pkg, key := methodKey(it, cc.Method.Name())
+		fr.callsiteObligations("("+types.TypeString(it, nil)+")."+cc.Method.Name(), sig, it, args, ins)
 		if c := vc.sess.specs.Contracts[pkg+"::"+key]; c != nil {
 			res := fr.applyContract(c, sig, it, args, ins, hint)
 			fr.setResults(v, res, sig)
